@@ -66,7 +66,8 @@ type replica = {
   mutable img : (acc_result image * n) option; (* newest recorded image + the user SM's own applied index in its data *)
   mutable lag : bool;
   mutable uapplied : n;                        (* on-disk user SM: in-memory applied index *)
-  mutable disk : n * n;                        (* on-disk user SM: durable (acc, applied) *)
+  mutable disk : n * n;
+  mutable reqi : n;                            (* node.ss.reqSnapshotIndex: applied index of the last handled user request *)                        (* on-disk user SM: durable (acc, applied) *)
   name : string;
 }
 
@@ -74,7 +75,7 @@ let run_case id kind cap ordered overhead ops =
   let k = ref 0 in
   let emit s = Printf.printf "%s %d %s\n" id !k s in
   let cfg = { c_ondisk = (kind = "disk"); c_ordered = ordered } in
-  let mk name = { st = rsm_init cap N0; ns = ninit; img = None; lag = false; uapplied = N0; disk = (N0, N0); name } in
+  let mk name = { st = rsm_init cap N0; ns = ninit; img = None; lag = false; uapplied = N0; disk = (N0, N0); reqi = N0; name } in
   let a = mk "A" and b = mk "B" in
   (* initial Recover of a new node: opens the on-disk state machine at index 0 *)
   if cfg.c_ondisk then begin a.st <- rsm_open_ondisk a.st N0; b.st <- rsm_open_ondisk b.st N0 end;
@@ -172,6 +173,7 @@ let run_case id kind cap ordered overhead ops =
   let restart_b tag keep =
     if cfg.c_ondisk && keep = "1" then b.disk <- (b.st.r_sm, b.uapplied);
     b.ns <- nstep overhead b.ns NRestart;
+    b.reqi <- N0;
     let fresh = rsm_init cap (if cfg.c_ondisk then fst b.disk else N0) in
     let fresh = if cfg.c_ondisk then rsm_open_ondisk fresh (snd b.disk) else fresh in
     b.uapplied <- (if cfg.c_ondisk then snd b.disk else N0);
@@ -337,6 +339,52 @@ let run_case id kind cap ordered overhead ops =
     | ["M"; ov; pre] ->
       flush ();
       stream_to b (small (n_of_string ov)) (small (n_of_string pre))
+    | ["Q"; kd; ovr; oh; ci] ->
+      let q = { q_exported = (kd = "x"); q_override = (ovr = "1"); q_overhead = n_of_string oh; q_cindex = n_of_string ci } in
+      flush ();
+      let tag, idx =
+        (* SnapshotOption.Validate *)
+        if q.q_override && q.q_overhead <> N0 && q.q_cindex <> N0 then "invalid", N0
+        (* node.handleSnapshot: a request at the applied index of the previous one is ignored *)
+        else if (not q.q_exported) && b.st.r_last_index = b.reqi then "rejected", N0
+        else begin
+          b.reqi <- b.st.r_last_index;
+          let idx = do_save b q [] in
+          (if idx = N0 then "rejected" else "completed"), idx
+        end in
+      emit (Printf.sprintf "Q %s idx=%s pending=%s" tag (string_of_n idx) (string_of_n b.ns.n_compact_to));
+      let before = remove_log b in
+      new_removals b before
+    | ["D"; _; _] when kind <> "disk" -> emit "D n/a"
+    | ["D"; ov; pre] ->
+      let ov = small (n_of_string ov) and pre = small (n_of_string pre) in
+      flush ();
+      let c1 = new_follower b pre in
+      let c2 = new_follower b 0 in
+      if not (rsm_ready_to_stream cfg b.st) then emit "D refused"
+      else begin
+        (* the second request arrives while the first is queued: refused and reported, raft retries *)
+        emit "D second accepted=false reported=true";
+        stream_into b c1 ov false;
+        stream_into b c2 ov false
+      end
+    | ["Z"; _; _] ->
+      flush ();
+      if kind = "disk" then begin
+        if not (rsm_ready_to_stream cfg b.st) then emit "Z refused"
+        else match rsm_prepare cfg SSStreaming b.st with
+          | Err _ | Ok OutOfDate -> raise Panic
+          | Ok (Prepared (m, st1)) ->
+            b.st <- st1;
+            emit (Printf.sprintf "Z stream idx=%s term=%s od=%s" (string_of_n m.mt_index) (string_of_n m.mt_term) (string_of_n m.mt_od));
+            emit "Z done"
+      end else begin
+        if b.ns.n_lr_snapshot = N0 then emit "Z no-record"
+        else begin
+          emit ("Z file idx=" ^ string_of_n b.ns.n_lr_snapshot);
+          emit "Z done"
+        end
+      end
     | ["V"; _; _] when kind <> "disk" -> emit "V n/a"
     | ["V"; ov; pre] ->
       let ov = small (n_of_string ov) and pre = small (n_of_string pre) in
